@@ -42,7 +42,8 @@ ASSUMPTIONS = [
 
 # reruns only when nothing is in flight: a rerun naming an execution whose action is still running is finding
 # C15-rerun-of-inflight-task (its late report raises KeyError), outside what C04 quantifies over
-FAM = progs.family(rerun_only_when_idle=True, steps=(15, 70), w_ctrl=1.6, w_malformed=0.3, p_fail=0.3, w_rerun=0.2)
+FAM = progs.family(p_items=0.3, p_intermediate=0.15, intermediate_statuses=["paused", "paused", "running", "pausing"],
+                   rerun_only_when_idle=True, steps=(15, 70), w_ctrl=1.6, w_malformed=0.3, p_fail=0.3, w_rerun=0.2)
 
 
 def features(sess):
